@@ -73,8 +73,15 @@ INJECT_FOR = {
 }
 # invalid serialiser / writer options
 BAD_OPTS = {
-    'ds9': [{'precision': 'x'}, {'bogus': 1}],
+    'ds9': [{'precision': 'x'}, {'precision': -1}, {'precision': 2.5}, {'bogus': 1}],
     'crtf': [{'coordsys': 'bogus'}, {'radunit': 'bogus'}, {'fmt': 'zz'}, {'bogus': 1}],
+    'fits': [{'header': 5}, {'bogus': 1}],
+}
+
+# bad options that must make every non-empty write fail (see the oracle)
+MUST_FAIL = {
+    'ds9': [{'precision': 'x'}, {'precision': -1}, {'precision': 2.5}, {'bogus': 1}],
+    'crtf': [{'coordsys': 'bogus'}, {'bogus': 1}],
     'fits': [{'header': 5}, {'bogus': 1}],
 }
 
@@ -450,6 +457,9 @@ class Check(PropertyCheck):
             {'to': name + '.gz', 'from': name, 'gz': True, 'fmt': None, 'mode': 'infer_gz_name'},
             {'to': 'copygz.dat', 'from': name, 'gz': True, 'fmt': None, 'mode': 'infer_gz_content'},
             {'to': 'copygz2.dat', 'from': name, 'gz': True, 'fmt': fmt, 'mode': 'given_gz'},
+            # the SAME absolute path in every case of this process (its content changes format from case to case):
+            # anything remembered about a path from an earlier read must not survive
+            {'to': 'reuse.dat', 'from': name, 'gz': False, 'fmt': None, 'mode': 'infer_content', 'fixed': True},
         ]
 
     def real(self, case):
@@ -577,6 +587,10 @@ class Check(PropertyCheck):
                     reads = []
                     for r in self._reads(case):
                         q = os.path.join(d, r['to'])
+                        if r.get('fixed'):
+                            fixed_dir = os.path.join(tempfile.gettempdir(), f'c14_reuse_{os.getpid()}')
+                            os.makedirs(fixed_dir, exist_ok=True)
+                            q = os.path.join(fixed_dir, r['to'])
                         rec = {'mode': r['mode']}
                         if r['from'] is not None:
                             with open(os.path.join(d, r['from']), 'rb') as f:
@@ -606,6 +620,7 @@ class Check(PropertyCheck):
                     out['signed'] = bool(len(content or b'') > 0)
         finally:
             shutil.rmtree(d, ignore_errors=True)
+            shutil.rmtree(os.path.join(tempfile.gettempdir(), f'c14_reuse_{os.getpid()}'), ignore_errors=True)
         return out
 
     # ---------------------------------------------------------------- model
@@ -722,6 +737,13 @@ class Check(PropertyCheck):
                 otherwise_valid = real.get('ser') == 'ok' and self.probe_hdu(wonly) is None
                 if real['exc'] != 'OSError' and otherwise_valid:
                     bad('refused_with_wrong_exception', f'expected OSError, got {real["exc"]}')
+        # an option the format's documentation rules out for EVERY region (MUST_FAIL: unknown keyword, DS9
+        # precision that is not a non-negative integer, unknown CRTF coordsys, non-header FITS header) makes a
+        # write of a non-empty, otherwise serialisable list FAIL (the property lists "bad option" among the
+        # failures); the table is fixed here, not learnt from the code under test.  Options that are only
+        # looked at for some shapes (CRTF radunit / fmt) are not in it.
+        if case['inj'] == 'opts' and case['opts'] in MUST_FAIL[fmt] and len(case['items']) >= 1 and real['exc'] is None:
+            bad('bad_option_accepted', 'the write went through although the option is invalid')
         # clause 2: a write that raises, for whatever reason, leaves every path as it was
         if real['exc'] is not None and not real['unchanged']:
             bad('failed_write_changed_fs', 'the write raised but the directory changed')
